@@ -138,8 +138,17 @@ nd::harnesses! {
         assert!(w[4] != 0, "... its drop function");
         assert!(w[5] == mark as usize, "... then the context");
         assert!(grp.check_impl_other() == has_other && grp.check_impl_reader() == has_reader);
-        let path: bool = nd::any();
-        if path {
+        let path: u8 = nd::any();
+        nd::assume(path < 3);
+        if path == 2 {
+            // the FINAL variant keeps the requested vtables only, in the same order, then the container
+            if let Some(f) = grp.into_impl_other() {
+                assert!(size_of_val(&f) == 5 * W);
+                let fw: [usize; 5] = unsafe { transmute_copy(&f) };
+                assert!(fw[0] == w[0] && fw[1] == w[1] && fw[2] == w[3] && fw[3] == w[4] && fw[4] == w[5],
+                        "final variant: mandatory, requested optional, container");
+            }
+        } else if path == 1 {
             if let Some(c) = grp.cast_impl_other() {
                 let vo: &OtherVtbl<_> = c.get_vtbl_base();
                 assert!(w[1] == vo as *const _ as usize, "the optional word is that trait's vtable");
